@@ -171,6 +171,9 @@ func main() {
 	for fn := range ssautil.AllFunctions(prog) {
 		e.fnByKey[fnKey(fn)] = fn
 	}
+	if os.Getenv("VERIF_NOPRUNE") == "" {
+		e.prune = MakePruner(e, filepath.Join(*verif, "work", *prop+".feas"), 400)
+	}
 	e.scanGlobals()
 	e.loadAxioms()
 
@@ -206,6 +209,9 @@ func main() {
 		fmt.Fprintf(os.Stderr, "cannot decide: contract(s) no longer bind to a function: %s\n", strings.Join(unbound, ", "))
 		os.Exit(2)
 	}
+	if *verbose {
+		fmt.Fprintf(os.Stderr, "symbolic execution done at %.1fs\n", time.Since(t0).Seconds())
+	}
 	work := filepath.Join(*verif, "work", *prop)
 	os.RemoveAll(work)
 	scfg := &SolveCfg{WorkDir: work, TimeoutMs: *timeout, Jobs: *jobs, Prelude: e.d.Prelude(), Keyed: e.d.KeyedAxioms}
@@ -215,6 +221,9 @@ func main() {
 		os.Exit(2)
 	}
 	solveWall := time.Since(tSolve).Seconds()
+	if *verbose {
+		fmt.Fprintf(os.Stderr, "solving done in %.1fs\n", solveWall)
+	}
 
 	os.Exit(report(e, *prop, *tier, seed, *verif, results, *update, *verbose, t0, solveWall, *noEvidence, *only != ""))
 }
